@@ -112,6 +112,10 @@ def sample_row(pos, fault):
         r['beads'] = 'B_NF' if pos % 5 == 3 else 'B_NOVAL'
     if fault == 'ok':
         return r
+    if fault == 'ok:inst2':
+        # a healthy row acquired on the other instrument (other channel names throughout), reporting no channel
+        r.update(inst='INST2', file='cell_i2.fcs', beads=None, units={FL1: None, FL2: None})
+        return r
     if fault == 'ok:nounits':
         # a healthy row that reports no channel at all (every units cell empty: documented as "ignored")
         r['units'] = {FL1: None, FL2: None}
@@ -231,18 +235,35 @@ STAT_COLS = ['Mean', 'Geom. Mean', 'Median', 'Mode', 'Std', 'CV', 'Geom. Std', '
 _SINGLE = {}
 
 
+_RELDIR = [False]
+
+
 def run_samples(rows, variant):
     """documented flow for a Samples sheet; returns (samples dict, table) or raises"""
     import FlowCal
     ui = FlowCal.excel_ui
     d = ensure_files()
+    if _RELDIR[0]:
+        # the workbook's folder given relative to the working directory (what run('folder/experiment.xlsx') passes on)
+        cwd0 = os.getcwd()
+        os.chdir(os.path.dirname(d))
+        try:
+            return _run_samples(rows, variant, os.path.basename(d), d)
+        finally:
+            os.chdir(cwd0)
+    return _run_samples(rows, variant, d, d)
+
+
+def _run_samples(rows, variant, base_dir, d):
+    import FlowCal
+    ui = FlowCal.excel_ui
     inst, bt, bs, fx = beads_context(variant)
     wb = os.path.join(d, 'samples_%d.xlsx' % os.getpid())
     wg.write_workbook(wb, [I1, I2], [], rows, unit_channels_cols=[FL1, FL2])
     st = ui.read_table(wb, 'Samples', 'ID')
     with warnings.catch_warnings():
         warnings.simplefilter('ignore')
-        samples = ui.process_samples_table(st, inst, mef_transform_fxns=fx, beads_table=bt, base_dir=d, verbose=False, plot=False)
+        samples = ui.process_samples_table(st, inst, mef_transform_fxns=fx, beads_table=bt, base_dir=base_dir, verbose=False, plot=False)
         ui.add_samples_stats(st, samples)
         hist = ui.generate_histograms_table(st, samples)
     return samples, st, hist
@@ -272,6 +293,12 @@ def cases(tier, seed):
     for f in ['units=' + u for u in BAD_UNITS] + ['fraction=%r' % x for x in BAD_FRACTIONS]:
         for rows in ([f], ['ok', f], [f, 'ok'], ['ok', f, 'ok']) if tier == 'thorough' else ([f], [f, 'ok']):
             yield dict(kind='samples', rows=rows)
+    # rows of two instruments with different channel names in one table, in both orders and around a faulty row
+    for rows in (['ok', 'ok:inst2'], ['ok:inst2', 'ok'], ['ok:inst2', 'notfound', 'ok'], ['ok', 'ok:inst2', 'ok:inst2', 'ok'], ['ok:inst2']):
+        yield dict(kind='samples', rows=rows)
+    # the folder of the files given relative to the working directory, with rows whose file is missing before healthy rows
+    for rows in (['notfound', 'ok'], ['ok', 'notfound', 'ok'], ['notfound', 'notfound', 'ok'], ['ok', 'few', 'notfound', 'ok'], ['ok']):
+        yield dict(kind='samples', rows=rows, reldir=True)
     # healthy rows that report no channel at all, among reporting and faulty rows
     for rows in (['ok:nounits'], ['ok', 'ok:nounits'], ['ok:nounits', 'ok'], ['ok', 'ok:nounits', 'notfound', 'fraction-big', 'ok'], ['ok:nounits', 'ok:nounits'],
                  ['units', 'ok:nounits', 'ok']):
@@ -309,7 +336,7 @@ def bounds(tier, seed):
 
 
 def single_fp(pos, variant, f='ok'):
-    key = (pos, variant, f)
+    key = (pos, variant, f, _RELDIR[0])          # (the path a sample was loaded from is part of the sample: relative and absolute folders are kept apart)
     if key not in _SINGLE:
         samples, st, hist = run_samples([sample_row(pos, f)], variant)
         s = samples['S%d' % (pos + 1)]
@@ -476,6 +503,7 @@ def run_case(c):
     ui = FlowCal.excel_ui
     res = Result()
     ensure_files()
+    _RELDIR[0] = False
     if c['kind'] == 'layouts':
         run_layouts(c, res)
         return res
@@ -483,6 +511,7 @@ def run_case(c):
         run_reanalysis(c, res)
         return res
     if c['kind'] == 'samples':
+        _RELDIR[0] = bool(c.get('reldir'))
         faults = c['rows']
         order = c.get('order') or list(range(len(faults)))
         variant = 'B' if 'mef-nocolumn' in faults else 'A'
@@ -550,7 +579,7 @@ def run_case(c):
                     ok = False
         # the same table processed without the optional beads table (the acquisition-settings comparison is then not made): every
         # other fault is still the row's error, every healthy row still equals its single-row result
-        if ok and rows and (len(rows) <= 2 or any(f.startswith('mef-') for f in faults) or c.get('tier') == 'thorough'):
+        if ok and rows and not c.get('reldir') and (len(rows) <= 2 or any(f.startswith('mef-') for f in faults) or c.get('tier') == 'thorough'):
             inst_, bt_, bs_, fx_ = beads_context(variant)
             wb_nb = os.path.join(ensure_files(), 'samples_nb_%d.xlsx' % os.getpid())
             wg.write_workbook(wb_nb, [I1, I2], [], rows, unit_channels_cols=[FL1, FL2])
